@@ -1,11 +1,11 @@
 import SqlProofs.CteShape.Skeletons
-import SqlProofs.CteShape.Table.T15  -- build-order only (three lanes: a decided lemma of ten WITH statements needs 5-6 GB)
-/-! CTE skeleton table, entries 180 … 189: kernel evaluation of the real lexer rules, `groupStatement` and `getType` -/
+import SqlProofs.CteShape.Table.T15  -- build-order only (three lanes: a decided lemma of five WITH statements needs about 5 GB)
+/-! CTE skeleton table, entries 90 … 94: kernel evaluation of the real lexer rules, `groupStatement` and `getType` -/
 namespace Sql
 namespace Acc
 
 set_option maxRecDepth 1000000 in
-theorem cte_180 : ((cteSkels.drop 180).take 10).all cteCheck = true := by decide +kernel
+theorem cte_090 : ((cteSkels.drop 90).take 5).all cteCheck = true := by decide +kernel
 
 end Acc
 end Sql
